@@ -58,6 +58,8 @@ func genRead(typ corpus.Type, b []byte) (o outcome) {
 	return
 }
 
+var opUnmarshal = "generated Unmarshal"
+
 type variant struct {
 	b    []byte
 	desc string
@@ -217,7 +219,9 @@ func runC08(t *rapid.T, w *rep.Worker) {
 	}
 	judgedBoth := 0
 	for _, v := range vars {
+		w.WatchBegin(&opUnmarshal)
 		g := genRead(typ, v.b)
+		w.WatchEnd()
 		w.StepsTot++
 		if v.kind != "valid" {
 			w.Fault(v.kind)
